@@ -91,6 +91,11 @@ func Call(
 	}
 	fn, ok := obj.(*object.Function)
 	if !ok {
+		if obj == nil {
+			// The name is declared (for example inside a block that did not
+			// run) but nothing was ever assigned to it
+			return nil, fmt.Errorf("object is not a function (got: nil)")
+		}
 		return nil, fmt.Errorf("object is not a function (got: %s)", obj.Type())
 	}
 
